@@ -42,7 +42,7 @@ COMPONENTS_STUB = [
 
 _dns = None
 POISON = 100000
-_ALLOC = {"n": None, "busy": False, "fired": 0, "failed_inv": set()}
+_ALLOC = {"n": None, "commit_n": None, "busy": False, "fired": 0, "fired_commit": 0, "failed_inv": set()}
 
 
 def setup():
@@ -67,11 +67,24 @@ def setup():
     funcs += threadsim.functions_of(dns.btreezone.ImmutableVersion, {"__init__"})
     threadsim.enable_line_preemption(funcs)
     # fault point: a failing allocation while the admitted writer builds its private version
-    for cls in (dns.zone.WritableVersion, dns.btreezone.WritableVersion):
+    for cls in (dns.zone.WritableVersion, dns.btreezone.WritableVersion, dns.zone.ImmutableVersion, dns.btreezone.ImmutableVersion):
         if not getattr(cls, "_verif_alloc_wrapped", False):
             orig = cls.__init__
 
-            def init(self, *a, _orig=orig, **kw):
+            def init(self, *a, _orig=orig, _is_commit=cls.__name__.startswith("Immutable"), **kw):
+                which = "commit_n" if _is_commit else "n"
+                if _is_commit:
+                    if _ALLOC["commit_n"] is not None and threadsim._ACTIVE is not None and threadsim._ACTIVE.current is not None and not _ALLOC["busy"]:
+                        _ALLOC["busy"] = True
+                        try:
+                            _ALLOC["commit_n"] -= 1
+                            if _ALLOC["commit_n"] == 0:
+                                _ALLOC["commit_n"] = None
+                                _ALLOC["fired_commit"] += 1
+                                raise MemoryError("injected allocation failure while building the immutable version at commit")
+                        finally:
+                            _ALLOC["busy"] = False
+                    return _orig(self, *a, **kw)
                 if _ALLOC["n"] is not None and threadsim._ACTIVE is not None and threadsim._ACTIVE.current is not None and not _ALLOC["busy"]:
                     _ALLOC["busy"] = True
                     try:
@@ -158,7 +171,8 @@ def gen_case(seed, tier):
     if all(t["late"] for t in threads):
         threads[0]["late"] = False
     alloc_fail = wl.choice([1, 2, 3, 4]) if wl.random() < 0.12 else None
-    return {"prop": PROP, "seed": seed, "cfg": cfg, "threads": threads, "schedule": None, "alloc_fail": alloc_fail}
+    alloc_fail_commit = wl.choice([1, 2, 3]) if wl.random() < 0.10 else None
+    return {"prop": PROP, "seed": seed, "cfg": cfg, "threads": threads, "schedule": None, "alloc_fail": alloc_fail, "alloc_fail_commit": alloc_fail_commit}
 
 
 # ---------------------------------------------------------------------------
@@ -225,6 +239,7 @@ class _World:
         self.serial_expected = 1
         self._prev = None
         self.woken_pending = None
+        self.failed_accounted = 0
 
     # --- helpers ---
     def name(self, s):
@@ -364,7 +379,10 @@ class _World:
         c = self.read_int(txn.get(counter, "TXT"))
         # every commit invoked so far was invoked by a writer that held the
         # write right before us, so all of them must be visible, and nothing else
-        if c != self.commits_invoked:
+        # (a commit whose injected allocation failure has already fired, but whose call has not
+        # returned yet, is known to fail and does not count)
+        failing_now = _ALLOC["fired_commit"] - self.failed_accounted
+        if c != self.commits_invoked - failing_now:
             raise Violation(
                 "C12:not-serial",
                 f"T{t.idx} was admitted and read counter {c} but {self.commits_invoked} commits had been made by earlier writers",
@@ -394,14 +412,23 @@ class _World:
         s.yield_point("op")
         t.phase = "ending"
         self.open.remove(t)
-        if end == "commit":
+        if end in ("commit", "with"):
             self.commits_invoked += 1
-            txn.commit()
-            self._committed(t, tag, op)
-        elif end == "with":
-            self.commits_invoked += 1
-            with txn:
-                pass
+            try:
+                if end == "commit":
+                    txn.commit()
+                else:
+                    with txn:
+                        pass
+            except MemoryError:
+                # the injected allocation failure at commit: per the documentation the commit
+                # fails and the transaction is rolled back; the zone must stay usable
+                self.commits_invoked -= 1
+                self.failed_accounted += 1
+                self.res.probes.inc("commit_failed_zone_must_stay_usable")
+                self.log.add("commit_failed_alloc", t.idx)
+                t.phase = "idle"
+                return
             self._committed(t, tag, op)
         elif end == "rollback":
             txn.rollback()
@@ -592,13 +619,17 @@ def run_case(case, keep_log=False):
     for spec in case["threads"]:
         sched.spawn(lambda t, spec=spec: world.thread_main(t, spec))
     _ALLOC["n"] = case.get("alloc_fail")
+    _ALLOC["commit_n"] = case.get("alloc_fail_commit")
     _ALLOC["fired"] = 0
+    _ALLOC["fired_commit"] = 0
     _ALLOC["failed_inv"] = set()
     try:
         failure = sched.run()
     finally:
         _ALLOC["n"] = None
+        _ALLOC["commit_n"] = None
     res.faults.inc("alloc_failure_in_version_setup", _ALLOC["fired"])
+    res.faults.inc("alloc_failure_at_commit", _ALLOC["fired_commit"])
     if failure is None:
         try:
             world.final_checks()
@@ -670,6 +701,14 @@ def shrink(case):
                 c["threads"][i]["ops"][j] = {"k": "w", "end": "commit", "serial": False, "noop": False}
                 yield c
     cfg = case["cfg"]
+    if case.get("alloc_fail_commit") is not None and case["alloc_fail_commit"] > 1:
+        c = copy.deepcopy(case)
+        c["alloc_fail_commit"] -= 1
+        yield c
+    if case.get("alloc_fail") is not None and case.get("alloc_fail_commit") is not None:
+        c = copy.deepcopy(case)
+        c["alloc_fail"] = None
+        yield c
     if case.get("alloc_fail") is not None and case["alloc_fail"] > 1:
         c = copy.deepcopy(case)
         c["alloc_fail"] -= 1
@@ -702,6 +741,7 @@ EXPECTED_PROBES = [
     "late_newcomer_started_on_quiescent_zone",
     "commit_without_change",
     "writer_setup_failed_zone_must_stay_usable",
+    "commit_failed_zone_must_stay_usable",
 ]
 
 
